@@ -60,7 +60,7 @@ def finalize(agg, tier):
     out = []
     for n in ("thread_runs:tsan", "thread_runs:plain", "thread_transcripts_compared", "hammer_digests", "interleaved_programs",
               "copies_checked", "destroyed_neighbours", "snapshots_compared", "signer_hash_state_checked", "first_use_trials",
-              "first_use_yields_injected", "native_hammer_calls", "native_hammer_runs:plain", "native_hammer_runs:tsan", "python_hammer_calls"):
+              "first_use_yields_injected", "native_hammer_calls", "native_hammer_runs:plain", "native_hammer_runs:tsan", "python_hammer_calls", "random_storm_draws"):
         if not c.get(n):
             out.append("deciding counter %s is zero" % n)
     for cv in CURVES:
@@ -694,6 +694,39 @@ def w_python_hammer(spec, ctx):
         th.start()
     for th in ths:
         th.join()
+    # second phase: the module-level random functions (ONE StrongRandom instance behind them) drawn with a different width
+    # in every thread, tightly: every value must respect the bounds of the call that returned it
+    from Crypto.Random import random as crandom
+    storm = spec.get("storm", 20000)
+    barrier2 = threading.Barrier(nt)
+
+    def body2(t):
+        width = [3, 16, 64, 200, 1, 9, 33, 521][t % 8]
+        bound = [5, 1000, 2 ** 64 + 13, 7, 2 ** 200 - 1, 3, 65537, 10 ** 30][t % 8]
+        try:
+            barrier2.wait()
+            for i in range(storm):
+                v = crandom.getrandbits(width)
+                total[t] += 1
+                if not 0 <= v < (1 << width):
+                    with lock:
+                        if len(bad) < 200:
+                            bad.append(("random-bounds", t, "getrandbits(%d) returned %d" % (width, v)))
+                if i % 4 == 0:
+                    v = crandom.randrange(bound)
+                    if not 0 <= v < bound:
+                        with lock:
+                            if len(bad) < 200:
+                                bad.append(("random-bounds", t, "randrange(%d) returned %d" % (bound, v)))
+        except BaseException:      # noqa
+            import traceback
+            errors.append(traceback.format_exc()[-1500:])
+    ths = [threading.Thread(target=body2, args=(t,)) for t in range(nt)]
+    for th in ths:
+        th.start()
+    for th in ths:
+        th.join()
+    ctx.count("random_storm_draws", storm * nt)
     n = sum(total)
     ctx.count("python_hammer_calls", n)
     ctx.ev(n)
